@@ -131,7 +131,24 @@ func cliGenGated(r *Rng, v6 bool) (cliMScenario, []string) {
 		add(cliMEv{kind: "arr", ok: true, xid: 1, tag: 0})
 	}
 	tags := []string{"gated-matcher", "buffer-full-loop-parked", fmt.Sprintf("cap=%d", sc.cap)}
-	switch r.Intn(4) {
+	switch r.Intn(6) {
+	case 4, 5:
+		// time passes while the loop is parked on the full buffer - less than the try's
+		// deadline, more than any grace period a receive loop might give a slow reader -
+		// with ACCEPTABLE datagrams among the parked and queued ones: they arrived while
+		// the call was waiting and must still be there when the matcher lets go
+		// (seeded changes C10-9, C12-11: the loop drops what it cannot hand over in time)
+		tags = append(tags, "time-passes-while-loop-parked")
+		add(cliMEv{kind: "arr", ok: true, xid: 1, tag: 1})
+		if r.Chance(1, 2) {
+			add(cliMEv{kind: "arr", ok: true, xid: 1, tag: r.Intn(2)})
+		}
+		add(cliMEv{kind: "adv", k: []int64{50_000_000, 150_000_000, 300_000_000, 600_000_000, 900_000_000}[r.Intn(5)]})
+		if r.Chance(1, 2) {
+			add(cliMEv{kind: "arr", ok: true, xid: 1, tag: 1})
+		}
+		add(cliMEv{kind: "rel", i: 0, k: 100})
+		add(cliMEv{kind: "call", i: 1})
 	case 3:
 		// a datagram for ANOTHER transaction reaches the socket while the loop is parked (so it
 		// stays in the socket queue); the call with that id is made afterwards
@@ -273,6 +290,41 @@ func cliCheckC10(sc cliMScenario, r cliMResult) (string, string) {
 					if e.idx < idx && e.group > c.callGroup && e.ok && e.xid == mc.xid && (mc.matchNil || e.tag == 1) {
 						return "not-first", fmt.Sprintf("call %d returned datagram #%d although #%d (also acceptable, injected while it waited) came first", i, idx, e.idx)
 					}
+				}
+			}
+		}
+		// an acceptable datagram that arrived while the call was waiting behind its blocked
+		// matcher - parked in the receive loop, queued in the socket or in the call's
+		// buffer - is still the call's answer when the matcher lets go, however much of
+		// the try's time has passed by then (decidable when nothing races, the release
+		// comes before any deadline, Close or cancellation, and the matcher is not nil)
+		if singleton && mc.gated && !mc.matchNil && c.outcome != "inuse" {
+			gr, blocked, elapsed := -1, false, int64(0)
+			for g := c.callGroup + 1; g < len(sc.groups) && gr < 0 && !blocked; g++ {
+				switch e := sc.groups[g][0]; e.kind {
+				case "rel":
+					if e.i == i && e.k >= 100 {
+						gr = g
+					}
+				case "tick", "clo":
+					blocked = true
+				case "can":
+					if e.i == i {
+						blocked = true
+					}
+				case "adv":
+					elapsed += e.k
+				}
+			}
+			if gr >= 0 && !blocked && elapsed < sc.T {
+				first := -1
+				for _, e := range r.injected {
+					if e.group > c.callGroup && e.group < gr && e.ok && e.xid == mc.xid && e.tag == 1 && (first < 0 || e.idx < first) {
+						first = e.idx
+					}
+				}
+				if first >= 0 && c.outcome != fmt.Sprintf("resp%d", first) {
+					return "waiting-datagram-lost", fmt.Sprintf("call %d ended with %s although datagram #%d - acceptable, arrived while the call was waiting behind its blocked matcher, %d ns into a try of %d ns - was its first acceptable datagram when the matcher was released (group %d)", i, c.outcome, first, elapsed, sc.T, gr)
 				}
 			}
 		}
